@@ -409,7 +409,11 @@ def run_spec(spec, symbolic=True, seed=1234):
     if backend == "gaussian":
         out["state"] = (np.array(st.means()), np.array(st.cov()))
     else:
-        out["state"] = (np.array(st.dm()),)
+        # compared up to normalisation: in a truncated Fock space a post-selected measurement renormalises whatever
+        # norm earlier gates have leaked beyond the cutoff, so reordering independent commands rescales the state
+        dm = np.array(st.dm())
+        tr = st.trace()
+        out["state"] = (dm / tr if abs(tr) > 1e-9 else dm,)
     out["applied"] = sum(len(p.circuit) for p in eng.run_progs)
     return out
 
